@@ -30,6 +30,36 @@ CHECKS = {
    technique='TLA+ spec of the receive machine (specs/RecvMachine) model-checked with TLC; TLC-chosen chunkings applied to live sessions; every emitted byte decoded by an independent RFC 4253 implementation (harness/wire.py)',
    text='TLC exhausts every segmentation of a packet stream (version line, asynchronous handler) through the version/header/body receive machine (InOrderOnce, NotEarly, AllDispatched, liveness; sensitivity variant rejected); TLC-chosen cut sets are mapped onto the real packet boundaries of live sessions in both directions with byte jitter; for every cipher x MAC (x compression), kex family, payload sizes around the block size and sequence numbers near 2^16/2^32 an independent decoder with its own key derivation, decryption, MAC, padding and sequence checks must accept everything both endpoints emit and see exactly the emitted payloads.',
    note='Trusted: TLC, wire.py + `cryptography` primitives, K/H from the key-log hook (kex arithmetic is C03). UMAC tags unverified (no independent UMAC). Conformance part is decided by the independent decoder, not by TLC.'),
+ 'C03': dict(
+   category='model_checking', design_ref='DESIGN.md §5.3',
+   technique='symbolic TLA+ model of the handshake (specs/Handshake) with a field-editing adversary, model-checked with TLC; TLC edit cases applied by a parsing MITM to live handshakes of every kex family; negotiated names compared with FirstCommon',
+   text='TLC exhausts the symbolic handshake (fixed-group DH/ECDH/hybrid, group exchange, RSA flows; 1-2 field edits incl. harmless ones; all preference-list pairs over a 3-name alphabet) against AgreeOrFail/NoDowngrade/FirstClientPref/EditDetected, with four sensitivity variants rejected; each abstract edit is applied to real cleartext handshake packets for every available kex method, plus hostile public values and byte flips, and the outcome (both fail / both complete with equal session ids and the predicted algorithms) is compared with the model.',
+   note='Trusted: TLC, the harness wire codec of drivers/handshake.py, classification of bytes into hashed/unhashed. Cryptographic strength of hash/signature is assumed (symbolic model).'),
+ 'C04': dict(
+   category='model_checking', design_ref='DESIGN.md §5.4',
+   technique='TLA+ decision-table model of host trust (specs/HostTrust) enumerated by TLC; every case materialised with real keys, certificates and known_hosts text and run as a live connection',
+   text='TLC enumerates known_hosts contents (<=3 lines x marker x match kind) x server presentations (key/cert, CA, type, validity windows incl. boundaries, principals, signature validity, key possession) and checks the code-ordered decision against TrustRule and NoCredsBeforeTrust (three sensitivity variants rejected); each case is materialised in ~45 pattern spellings incl. hashed/CIDR/[host]:port/negation with ed25519/ecdsa/rsa keys, a lying server and tampered certificates, and the live outcome plus absence of any authentication callback at the server is compared with the rule.',
+   note='Trusted: TLC, key/certificate generation by asyncssh for materialisation, fixed clock. Known calibration: a certificate whose certified key is @revoked is accepted (outside C04 as stated).'),
+ 'C12': dict(
+   category='model_checking', design_ref='DESIGN.md §5.12',
+   technique='TLA+ model of the parallel SFTP I/O scheduler (specs/SftpIO) model-checked with TLC; behaviours replayed against the real client with a scripted SFTP peer answering in TLC order',
+   text='TLC exhausts file size x block size x max_requests x answer pattern (full/short/EOF/error) x completion order x sparse layouts against Read/Write/CopyCorrect, FailLoud, NoLostTask, Progress (three sensitivity variants rejected); thousands of behaviours are replayed into SFTPClientFile.read/write and get/put/copy (sparse and non-sparse, SFTP v3-v6, several byte scalings) with a scripted peer holding every READ/WRITE; the verdict is destination bytes vs exception/return.',
+   note='Trusted: TLC, scripted SFTP peer of drivers/sftp_io.py. Not covered: server-side copy-data shortcut, append mode, local source shrinking during put.'),
+ 'C14': dict(
+   category='model_checking', design_ref='DESIGN.md §5.14',
+   technique='TLA+ models of SFTP request/reply matching, server request cases and attribute carriage (specs/SftpProto, specs/SftpAttrs) enumerated by TLC; cases replayed against the real client handler, real server and real codec',
+   text='TLC exhausts reply sequences for 3 outstanding requests (unknown/duplicate id, wrong type), a server case table (30 request types x versions 3-6 x truncation at every byte x trailing bytes x unsupported types; errno/SFTPError status table) and 2x4096 attribute subsets x 4 versions; every case is executed against the real SFTPClient, the real SFTP server (raw client counting replies per id) and SFTPAttrs/SFTPName encode/decode.',
+   note='Trusted: TLC, raw SFTP peers of drivers/sftp_proto.py. alloc_size being encoded in versions < 6 is recorded as an observation (outside the quantifier).'),
+ 'C15': dict(
+   category='exploration', design_ref='DESIGN.md §5.15',
+   technique='TLA+ applicability/outcome tables, multi-key file scanner and conversion chains (specs/KeyFormats) enumerated by TLC as case generator and outcome predictor; harness round trips with PyCA and ssh-keygen as independent readers/writers decide',
+   text='TLC enumerates the legal (key type, format, cipher, hash, PBE version, passphrase) space with predicted outcome class, multi-key file layouts and export/import chains; each case is executed: export -> import -> equality of key, public half and comment, wrong passphrase rejected, and cross-read/written by PyCA `cryptography` and ssh-keygen. Byte fidelity is decided by the harness comparison, not by TLC, hence exploration.',
+   note='Trusted: PyCA cryptography and OpenSSH ssh-keygen as independent implementations. bcrypt absent: OpenSSH-format encrypted private keys are specified (and checked) to fail with KeyExportError here.'),
+ 'C16': dict(
+   category='model_checking', design_ref='DESIGN.md §5.16',
+   technique='TLA+ decision tables CertRule / SshsigRule / VerifyRule (specs/SigCert) model-checked with TLC against the code-ordered decision; every row materialised with real keys and a patched clock; single-byte tamper sweeps',
+   text='TLC checks equivalence of the declarative rules and the code-ordered checks over 41k certificate rows, ~5.5k SSHSIG rows and 504 signature rows (five sensitivity variants rejected); every row is materialised with real keys of every algorithm, boundary instants, principals and option sets; every single-byte edit, truncation and extension of signatures, certificates and SSHSIG blobs must fail verification. The table part is model checking; the cryptographic part is exploration.',
+   note='Trusted: TLC, key generation by asyncssh, ssh-keygen as second opinion. ECDSA (r, n-s) malleability is outside the quantifier.'),
 }
 NOT_YET = 'check under construction in this round; see DESIGN.md §9'
 
